@@ -105,6 +105,9 @@ def positions(node, frag, path):
         for i, el in enumerate(frag["values"]):
             yield path + ["values", i], "element", ("w", "v")
             yield path + ["values", i, "w"], "number", "Bag.w"
+            yield path + ["values", i, "v"], "bagvalue", frag["range"]
+        if frag["values"]:
+            yield path + ["values"], "baglist", frag["range"]
     elif k == "Bin":
         yield path + ["values"], "list", k
         for i, v in enumerate(frag["values"][:3]):
@@ -228,6 +231,21 @@ def mutants(sp, doc):
         elif role == "string":
             for j in (5, 0, [], None):
                 out.append(("string:retype", path, _set(doc, path, j)))
+            if info == "Bag":
+                for j in ("bogus", "", "n", "N0", "NS"):
+                    out.append(("bag:range-unknown", path, _set(doc, path, j)))
+        elif role == "bagvalue":
+            # a value of the wrong kind for the declared range
+            wrong = {"N": ["x", [1.0], [], None, {}], "S": [1.5, [1.0], None, {}], "N2": ["x", 1.5, [1.0], [1.0, 2.0, 3.0], [1.0, "x"], None]}.get(info, [None])
+            for j in wrong:
+                out.append(("bag:value-wrong-kind", path, _set(doc, path, j)))
+            par = path[:-1]
+            out.append(("bag:negative-weight", par + ["w"], _set(doc, par + ["w"], -1.0)))
+        elif role == "baglist":
+            # the same value listed twice: one of the two weights would be dropped silently
+            lst = copy.deepcopy(cur)
+            lst.append(dict(lst[0], w=7.0))
+            out.append(("bag:duplicate-value", path, _set(doc, path, lst)))
         elif role == "typename":
             for j in (5, [], 0, None, "", "NoSuchPrimitive"):
                 out.append(("typename:retype" if j != "NoSuchPrimitive" else "typename:unregistered", path, _set(doc, path, j)))
